@@ -210,7 +210,7 @@ def make_ks(model, mol, uks, gcfg, mdesc):
     st = model.settings
     kw = None
     if st.has_nldf:
-        kw = dict(aparam=0.04, dparam=0.06, alpha_max=3000.0, aux_lambd=1.9)
+        kw = dict(aparam=0.04, dparam=0.06, alpha_max=float(mdesc.get("alpha_max", 3000.0)), aux_lambd=1.9)
         if mdesc.get("zero_d"):
             # numeric options handed over as 0-d arrays (what np.asarray / a config loader give):
             # they are the caller's objects and the initializer is used for several builds
@@ -259,7 +259,7 @@ def gen_ni_history(seed):
     models = []
     for _ in range(nm):
         s, ev, mode, ver = rng.choice(NI_MODELS)
-        models.append({"settings": s, "ev": ev, "mode": mode, "version": ver, "seed": rng.below(10**6), "plan_type": rng.choice(["gaussian", "spline"]), "interp": rng.choice(["onsite_direct", "onsite_spline"]), "xmix": rng.choice([1.0, 0.5, 0.25]), "zero_d": bool(rng.chance(0.3))})
+        models.append({"settings": s, "ev": ev, "mode": mode, "version": ver, "seed": rng.below(10**6), "plan_type": rng.choice(["gaussian", "spline"]), "interp": rng.choice(["onsite_direct", "onsite_spline"]), "xmix": rng.choice([1.0, 0.5, 0.25]), "zero_d": bool(rng.chance(0.3)), "alpha_max": rng.choice([300.0, 1000.0, 3000.0, 3000.0])})
     nmol = rng.randint(1, 3)
     mols = []
     for _ in range(nmol):
@@ -329,10 +329,16 @@ def gen_ni_history(seed):
                 # a density far outside the range the settings were built for (poor initial guess):
                 # fresh objects reject it with the documented error, and so must long-lived ones;
                 # the objects are used again afterwards
-                ops[-1]["scale"] = rng.choice([3000.0, 1e5, 1e6])
+                ops[-1]["scale"] = rng.choice([30.0, 3000.0, 1e5])
                 ops[-1]["dms"] = ops[-1]["dms"][:1]
                 ops[-1]["container"] = "single"
                 ops[-1]["alias"] = None
+                if rng.chance(0.7):
+                    # ... and the same objects go on with an ordinary request
+                    nxt = {k_: v_ for k_, v_ in ops[-1].items() if k_ != "scale"}
+                    nxt["dms"] = [rng.below(3)]
+                    ops.append(nxt)
+                continue
             if rng.chance(0.12):
                 # the call is interrupted at a seeded point (un-acknowledged); most users then
                 # simply issue it again on the same objects
